@@ -31,10 +31,8 @@ theorem passToHandler_unsolicited (E : Gen.Env_llrp_Client_passToHandler) (w : E
     (lk ulk : E.World → E.sync_Mutex → E.World) :
     Gen.llrp_Client_passToHandler { E with index_Map_messageID_Chan_Message := idx, delete_Map_messageID_Chan_Message := del, send_Chan_Message := snd, close_Chan_Message := cls, sync_Mutex_Lock_1 := lk, sync_Mutex_Unlock_1 := ulk } w hdr
       = Gen.llrp_Client_passToHandler E w hdr := by
-  have hc : ((decide (E.get_Header_typ hdr ≠ 62) && decide (E.get_Header_typ hdr ≠ 61)) && decide (E.get_Header_typ hdr ≠ 63)) = false := by
-    rcases h with h | h | h <;> simp [h]
+  -- whichever way the source orders its three tests
   unfold Gen.llrp_Client_passToHandler
-  simp only [hc]
-  simp
+  rcases h with h | h | h <;> simp [h]
 
 end LLRP.SeqClient
